@@ -18,6 +18,7 @@ import (
 	"time"
 
 	scalibr "github.com/google/osv-scalibr"
+	"github.com/google/osv-scalibr/detector"
 	"github.com/google/osv-scalibr/extractor"
 	"github.com/google/osv-scalibr/extractor/filesystem"
 	scalibrfs "github.com/google/osv-scalibr/fs"
@@ -68,6 +69,7 @@ type EP struct {
 // Out is what Extract does.
 type Out struct {
 	Err, Panic bool
+	Find       bool // also returns a finding (inventory that is not a package: counts as "produced results")
 	Pkgs       []int
 }
 
@@ -189,7 +191,7 @@ func (c *Case) Line() string {
 		for i, id := range o.Pkgs {
 			ids[i] = strconv.Itoa(id)
 		}
-		ex = append(ex, fmt.Sprintf("%d@%s=%d%d:%s", k.E, hexPath(k.P), b(o.Err), b(o.Panic), hx.Join(ids, ",")))
+		ex = append(ex, fmt.Sprintf("%d@%s=%d%d%d:%s", k.E, hexPath(k.P), b(o.Err), b(o.Panic), b(o.Find), hx.Join(ids, ",")))
 	}
 	fmt.Fprintf(&sb, " %s %s %d", hx.Join(rq, ";"), hx.Join(ex, ";"), len(c.Roots))
 	for _, r := range c.Roots {
@@ -360,7 +362,7 @@ func ParseLine(l string) *Case {
 			ep, rest, _ := strings.Cut(x, "=")
 			e, p, _ := strings.Cut(ep, "@")
 			fl, ids, _ := strings.Cut(rest, ":")
-			o := Out{Err: fl[0] == '1', Panic: fl[1] == '1'}
+			o := Out{Err: fl[0] == '1', Panic: fl[1] == '1', Find: len(fl) > 2 && fl[2] == '1'}
 			if ids != "-" {
 				for _, id := range strings.Split(ids, ",") {
 					o.Pkgs = append(o.Pkgs, atoi(id))
@@ -684,6 +686,9 @@ func (e fakeEx) Extract(ctx context.Context, in *filesystem.ScanInput) (inventor
 			locs = append(locs, "00/"+string(rune('a'+k%7)))
 		}
 		inv.Packages = append(inv.Packages, &extractor.Package{Name: fmt.Sprintf("n%d", id/3), Version: fmt.Sprintf("v%d", id%3), Locations: locs, Metadata: id})
+	}
+	if o.Find {
+		inv.Findings = append(inv.Findings, &detector.Finding{Adv: &detector.Advisory{ID: &detector.AdvisoryID{Publisher: "fx", Reference: fmt.Sprintf("F-%d-%s", e.id, in.Path)}}})
 	}
 	if o.Err {
 		return inv, errors.New("extract-error")
